@@ -2,10 +2,18 @@
    ExtrOcamlBasic only; N, Z, positive and nat stay the extracted inductive types. *)
 Require Extraction.
 Require Import ExtrOcamlBasic.
-From VpnModel Require Import Base Dissect.
+From VpnModel Require Import Base Dissect RangeMatch Nonce Replay Interval Netmask Base62 Table Core CoreSys.
 Extraction Language OCaml.
 Separate Extraction
   Base.be_val Base.be_enc Base.list_eqb
   N.add N.mul N.sub N.div N.modulo N.eqb N.ltb N.leb N.of_nat N.to_nat N.land N.lor N.lxor N.shiftl N.shiftr
   Z.add Z.mul Z.sub Z.of_N Z.to_N Z.ltb Z.leb Z.eqb
-  Dissect.frame_parse Dissect.packet_parse.
+  Dissect.frame_parse Dissect.packet_parse
+  RangeMatch.range_matches RangeMatch.range_read RangeMatch.range_write
+  Nonce.nonce_increment
+  Replay.run Replay.ref_run Replay.win0 Replay.ghost0
+  Interval.get_keepalive Interval.update_freq Interval.announce_interval Interval.backoff_step Interval.backoff0
+  Netmask.parse_ip_netmask Netmask.ip_part
+  Base62.to_base62 Base62.from_base62
+  Table.table_new Table.table_cache Table.table_housekeep Table.table_set_claims Table.table_remove_claims Table.table_lookup
+  CoreSys.crun CoreSys.cst_init.
